@@ -391,6 +391,16 @@ def gen_iterable(rng, d, g):
     return {'step': 'iterable', 'rows': [[9000 + 100 * g.n + i, 'it%d' % i] for i in range(n)], 'id_base': 0}
 
 
+def gen_sources(rng, d, g):
+    k = rng.choice([1, 2])
+    return {'step': 'sources', 'tables': [[[9500 + 100 * g.n + 10 * j + i, 'sr%d' % i] for i in range(rng.choice([0, 1, 3]))] for j in range(k)], 'first': len(d.res) + 1}
+
+
+def gen_load_tuple(rng, d, g):
+    n = rng.choice([0, 1, 2, 5])
+    return {'step': 'load_tuple', 'name': g.fresh('lt'), 'rows': [[9700 + 100 * g.n + i, 'lt%d' % i] for i in range(n)]}
+
+
 BAD_LINKS = ['func_extra_default', 'func_two', 'func_kwonly', 'lambda_extra', 'int', 'none', 'noparam', 'unknown_name', 'object']
 
 GENS = {k[4:]: v for k, v in list(globals().items()) if k.startswith('gen_') and k != 'gen_step'}
@@ -624,6 +634,12 @@ def build(spec, env):
         return [DF.add_field(spec['marker'], 'integer'), build_user(spec, env)]
     if s == 'iterable':
         return [[{'_id': r[0], 'a': r[1]} for r in spec['rows']]]
+    if s == 'sources':
+        return [DF.sources(*[[{'_id': r[0], 'a': r[1]} for r in rows] for rows in spec['tables']])]
+    if s == 'load_tuple':
+        desc = {'resources': [{'name': spec['name'], 'path': spec['name'] + '.csv', 'profile': 'tabular-data-resource',
+                               'schema': {'fields': [{'name': '_id', 'type': 'integer'}, {'name': 'a', 'type': 'string'}]}}]}
+        return [DF.load((desc, [iter([{'_id': r[0], 'a': r[1]} for r in spec['rows']])]), strip=False)]
     if s == 'bad_link':
         k = spec['kind']
         if k == 'func_extra_default':
